@@ -168,3 +168,38 @@ Proof.
     apply Permutation_cons_app_inv in HP. cbn [perms]. apply in_flat_map.
     exists (l1 ++ l2); split; [apply IH; exact HP|apply insert_all_complete].
 Qed.
+
+(* ---- duplicate names: the stored map keeps the last occurrence ---- *)
+Lemma dedup_last_nodup cfg : NoDup (map fst (dedup_last cfg)).
+Proof.
+  induction cfg as [|x cfg IH]; cbn [dedup_last fold_right]; [constructor|].
+  fold (dedup_last cfg).
+  destruct (existsb (fun y => String.eqb (fst y) (fst x)) (dedup_last cfg)) eqn:E; [exact IH|].
+  cbn [map]. constructor; [|exact IH].
+  intros Hin. apply in_map_iff in Hin as [y [Hy Hin]].
+  assert (existsb (fun y => String.eqb (fst y) (fst x)) (dedup_last cfg) = true).
+  { apply existsb_exists. exists y. split; [exact Hin|]. rewrite Hy. apply String.eqb_refl. }
+  congruence.
+Qed.
+
+Lemma dedup_last_incl cfg p : In p (dedup_last cfg) -> In p cfg.
+Proof.
+  induction cfg as [|x cfg IH]; cbn [dedup_last fold_right]; [intros []|].
+  fold (dedup_last cfg).
+  destruct (existsb (fun y => String.eqb (fst y) (fst x)) (dedup_last cfg)); intros H.
+  - right; apply IH; exact H.
+  - destruct H as [<-|H]; [left; reflexivity|right; apply IH; exact H].
+Qed.
+
+(* exactness for a configured list WITH duplicate names: over the draw range [0, total of the stored map)
+   every stored cluster gets exactly its stored (= last configured) weight, in every storage order *)
+Theorem cluster_exact_dedup : forall cfg, Forall (fun p => 0 <= snd p) cfg ->
+  forall cs', Permutation (dedup_last cfg) cs' -> forall c w, In (c, w) (dedup_last cfg) ->
+  hits lt0 cs' c = w.
+Proof.
+  intros cfg Hnn cs' HP c w Hin.
+  assert (Hnn' : Forall (fun p => 0 <= snd p) (dedup_last cfg)).
+  { rewrite Forall_forall in *. intros p Hp. apply Hnn. apply dedup_last_incl; exact Hp. }
+  rewrite hits_exact by (eapply perm_forall_nonneg; eassumption).
+  rewrite <- (weight_of_perm c _ _ HP). apply weight_of_nodup; [apply dedup_last_nodup|exact Hin].
+Qed.
